@@ -189,7 +189,7 @@ func versionKeysFor(universe []common.Address) []versionKey {
 // inflight is the index of the op during which the (first) crash fired.
 func (x *c08Run) checkRestarted(inflight int) bool {
 	c, w, nd := x.c, x.w, x.nut
-	site := x.site
+	site := "" // the fault site is reported in the message, not in the signature
 	var st *types.Block
 	var stErr error
 	nd.Do("stable", func() { st, stErr = nd.DB.LoadLatestBlock() })
@@ -273,6 +273,9 @@ func (x *c08Run) checkRestarted(inflight int) bool {
 	for _, a := range w.Universe {
 		if got.Raw[a] != want.Raw[a] || DiffState(StateDump{a: got.Dump[a]}, StateDump{a: want.Dump[a]}) != "" {
 			clause := x.classifyAccount(a, got, st)
+			if strings.HasPrefix(got.Raw[a], "err:") {
+				clause = "account-undecodable"
+			}
 			x.fail(clause, site, "account %s as persisted after restart on stable block %d is not its state as of exactly that block: %s%s; %s",
 				a.Hex(), st.Height(), DiffState(StateDump{a: got.Dump[a]}, StateDump{a: want.Dump[a]}), rawNote(got.Raw[a], want.Raw[a]), x.story())
 			return false
